@@ -166,7 +166,7 @@ class AxisError(ValueError, IndexError):
 
 # ----------------------------------------------------------------------------- ndarray
 class ndarray:
-    __slots__ = ("_buf", "_off", "shape", "_strides", "dtype", "base")
+    __slots__ = ("_buf", "_off", "shape", "_strides", "dtype", "base", "name")  # `name`: lets a harness build a named column (stands for an ndarray subclass / Series-like object)
     __array_priority__ = 1
     __hash__ = None
 
